@@ -14,6 +14,11 @@ import (
 var histOpsAll = map[string]bool{"create": true, "sched": true, "delete": true, "finish": true, "deliver": true, "drop": true,
 	"resync": true, "scale": true, "apirelease": true}
 
+// histOpsSync adds the pod-IP sync path: pods become Running, the store is lost and galaxy-ipam restarted (migration to an empty
+// store, which is what syncPodIPsIntoDB exists for), and the periodic pod-IP sync re-adopts the IPs of running pods.
+var histOpsSync = map[string]bool{"create": true, "sched": true, "delete": true, "deliver": true, "drop": true,
+	"resync": true, "run": true, "storeloss": true, "syncpodips": true}
+
 var histClasses = []wkClass{
 	{"sts", ""}, {"sts", "immutable"}, {"sts", "never"},
 	{"dp", ""}, {"dp", "immutable"}, {"dp", "never"},
@@ -28,6 +33,20 @@ func histSystems(cloud bool) []*HistSys {
 		// the same alphabet from a non-initial state: both pods created and bound
 		out = append(out, &HistSys{Class: c, Cfg: cfgTwoPools(cloud), NPods: 2, Replicas: 2, Ops: histOpsAll, PrefixName: "allbound",
 			Prefix: []Op{{Kind: "create", A: 0}, {Kind: "sched", A: 0}, {Kind: "create", A: 1}, {Kind: "sched", A: 1}}})
+		if c.Kind == "dppool" {
+			// the pool additionally has a Pool object with a size (filter then allocates during Filter)
+			out = append(out, &HistSys{Class: c, Cfg: cfgTwoPools(cloud), NPods: 2, Replicas: 2, Ops: histOpsAll, PoolSize: 2, PrefixName: "sizedpool"})
+		}
+	}
+	return out
+}
+
+// c03Systems: the C02 systems plus, per reserving class, the pod-IP sync alphabet from a state with one pod bound.
+func c03Systems() []*HistSys {
+	out := histSystems(false)
+	for _, c := range []wkClass{{"sts", "immutable"}, {"sts", "never"}, {"dppool", ""}, {"dp", "never"}, {"bare", "never"}} {
+		out = append(out, &HistSys{Class: c, Cfg: cfgTwoPools(false), NPods: 1, Replicas: 2, Ops: histOpsSync, PrefixName: "syncpath",
+			Prefix: []Op{{Kind: "create", A: 0}, {Kind: "sched", A: 0}}})
 	}
 	return out
 }
@@ -387,6 +406,11 @@ func oracleC03(h *HistSys, hist []Op, w *world.World, obs Obs) *Finding {
 		}
 	}
 	// (ii) no spurious release: what the policy reserves before and after the op is still there
+	if obs.Op.Kind == "storeloss" || obs.Op.Kind == "drop" {
+		// storeloss: the environment destroyed the store in this very step. drop: the predecessor's quiescent closure delivered
+		// the event that is lost here, so the two closures are not comparable (no galaxy code runs in a drop step).
+		return nil
+	}
 	posted := map[string]bool{}
 	for _, e := range obs.Posted {
 		posted[e.IP] = true
@@ -484,7 +508,7 @@ func keyShape(key string) string {
 func init() {
 	assume := append([]string{"explicit-state BFS over operation histories; a state is rebuilt by replaying its history on a fresh instance (every transition is an execution of the implementation)",
 		"canonical state: truth pods, IPAM tables, FloatingIP objects, pending events, replicas; UIDs renamed by first appearance, timestamps reduced to ranks"}, assumeIPAM...)
-	register(&Property{ID: "C02", Level: "model_checking", QuickS: 100, ThoroughS: 1200, Assume: assume,
+	register(&Property{ID: "C02", Level: "model_checking", QuickS: 160, ThoroughS: 1200, Assume: assume,
 		Rule: "BFS over histories of {create, sched(node first/last), delete, finish, deliver(i), drop, resync, scale, apirelease} per workload x policy class on a two-pool/two-subnet topology; " +
 			"on every sched transition the stickiness oracle compares the binding with the IPs held for the identity right before Filter; plus exhaustive schedules of old-incarnation events vs. new incarnation's filter/bind",
 		Jobs: func(tier string) []Job {
@@ -511,7 +535,7 @@ func init() {
 		}
 		return replayExplore("C02", c02Concurrent(tier), oracleC02Concurrent, v)
 	}
-	register(&Property{ID: "C03", Level: "model_checking", QuickS: 100, ThoroughS: 1200, Assume: assume,
+	register(&Property{ID: "C03", Level: "model_checking", QuickS: 160, ThoroughS: 1200, Assume: assume,
 		Rule: "BFS over histories (same alphabet as C02, incl. lost events, scale, delete-app, API release) per workload x policy class; every transition is followed by 'deliver all; resync' and the " +
 			"quiescent state is compared with the documented-policy reference model (leak direction and spurious-release direction); a second resync must be a no-op",
 		Jobs: func(tier string) []Job {
@@ -520,12 +544,12 @@ func init() {
 				depth = 8
 			}
 			var jobs []Job
-			for _, h := range histSystems(false) {
+			for _, h := range c03Systems() {
 				jobs = append(jobs, histJob("C03", h.jobName(), h, depth, oracleC03, nil))
 			}
 			return jobs
 		}})
-	replayers["C03"] = func(tier string, v coop.Violation) int { return replayHist("C03", histSystems(false), oracleC03, v) }
+	replayers["C03"] = func(tier string, v coop.Violation) int { return replayHist("C03", c03Systems(), oracleC03, v) }
 }
 
 func c02Concurrent(tier string) []*Scenario {
